@@ -34,7 +34,14 @@ RULE = ("ops: roundtrip (ADMGs 0-8 nodes with isolated / bidirected-only nodes, 
         "compared with the model, verdict checked by ID on the independent projection); malformed stream: cyclic graphs, untagged nodes; name-collision stream (a node already called "
         "u_i / v_prime); rule-1 stream (hard_dag: R->U->L->C with U->A, three nested latents, latents whose children are "
         "partly latent, a latent parent above the head, `<latent>_prime` names already taken); u_i stream (hard_admg: "
-        ">=2 bidirected edges and 1-3 observed nodes called u_j, j <= number of bidirected edges); small-scope slice: every DAG on <=3 (quick) / <=5 (thorough) nodes x every latent subset; thorough "
+        ">=2 bidirected edges and 1-3 observed nodes called u_j, j <= number of bidirected edges); prefix stream (tags prefix_collides, "
+        "prefix_kind, start_negative, fresh_names_skipped: to_latent_variable_dag(prefix=, start=) chosen per graph so that the generated "
+        "names run into node names -- `A0`+7 for a node A07, `X1`+0 / `X`+10 for X10, a start shortly before the hit, negative starts, the "
+        "empty prefix); evans_simplify(latents=) naming a variable that is NOT a node, alone or beside members, with probability 0.1 (tag "
+        "extra_foreign); mixed-name stream (tag names=mixed: roundtrip / simplify / evans / from_lv cases of the streams above over "
+        "gen_graph.MIXED_NAMES -- one-letter names beside X10, X_1, aB; `left > right` of remove_redundant_latents, the _prime and u_i "
+        "loops see other orders); the VALUE under the latent tag is a bool, the int 1/0, a numpy bool, True/None or a mixture (tag "
+        "form_tag_values); small-scope slice: every DAG on <=3 (quick) / <=5 (thorough) nodes x every latent subset; thorough "
         "adds DAGs up to 11 nodes with sampled separation triples. A simplify/evans case is non-trivial when at least one rule changed the graph "
         "and at least two observed nodes remain; a roundtrip case when it has an edge-less node or >=2 bidirected edges.")
 ASSUMPTIONS = [
@@ -45,6 +52,9 @@ ASSUMPTIONS = [
     "in-place mutation: simplify_latent_dag mutates its argument and leaves it half-rewritten when it raises; the model is pure and returns the final graph (runtime clause, not claimed)",
     "taheri_design._get_result: modelled up to the verdict (identify succeeded / Unidentifiable), the four counts and the returned ADMG; `canonicalize` of the returned estimand and the echoed `latents` / `observed` arguments are not modelled; the driver runs the ID model with the model of nx.topological_sort (the verdict does not depend on the order: id_verdict_equiv_congr)",
     "non-Variable nodes (_assert_variable_nodes TypeError), counterfactual graphs (raise_on_counterfactual) and a non-default suffix are outside the model",
+    "latent tag VALUES: the code reads the tag by truthiness (`if graph.nodes[node][tag]`, `if not data[tag]`), nothing restricts it to bool; the model only knows latent / observed, so the value style (bool, int 1/0, numpy bool, True/None, mixed; recorded as form tag_values) is a runtime clause decided by correspondence + oracle, and the harness itself reads the tags of returned DAGs by truthiness",
+    "evans_simplify(latents=...) may name variables that are not nodes of the graph: definition used by the oracle and the model = they are ignored (`Additional variables to mark as latent`)",
+    "to_latent_variable_dag(prefix=, start=): the model takes the table of names prefix+str(start+i) in order and skips the taken ones, so every prefix (also the empty one) and every start (also negative) is expressed; the names the latents GET are compared exactly in the round trip",
     "argument FORMS (harness/forms.py; chosen deterministically per case, stored in the case, tagged form_*): to_latent_variable_dag with prefix / start / tag omitted, None, the defaults written out, or NON-default values (prefix 'lat', start 1 or 3, tag 'is_latent'; the model takes the table of fresh names, so it follows prefix and start; the tag only names the attribute) and from_latent_variable_dag with the matching tag omitted / None / positional / keyword; simplify_latent_dag, evans_simplify, _get_result and from_latent_variable_dag with the tag omitted / None / 'hidden' / a custom key on a DAG tagged accordingly; evans_simplify's extra latents as every collection type, one-shot iterable or bare Variable (`None | Variable | Iterable[Variable]`), no extra latents as omitted / None / empty; _get_result's latents / observed as list / tuple / set / frozenset / dict keys (Collection); the ADMG through every public constructor of NxMixedGraph (order preserving ones for the round trip, whose LV-DAG is compared by name). Independence of the form is a runtime clause decided by correspondence + oracle",
 ]
 EXHAUSTIVE = {"quick": False, "thorough": False}
@@ -347,6 +357,84 @@ def hard_admg(rng):
     return {"nodes": nodes, "di": di, "bi": bi}
 
 
+FOREIGN_NAMES = ("Qx", "A77", "zz", "u_0", "u_1", "A00" + SUF)
+
+
+def _add_foreign(rng, g, extra, p=0.1):
+    """G16-2: `latents` may name variables that are not nodes of the graph (they are ignored), alone or beside members"""
+    if rng.random() < p:
+        have = set(G.all_nodes(g))
+        cand = [x for x in FOREIGN_NAMES if x not in have and x not in extra]
+        if cand:
+            extra = list(extra)
+            extra.insert(rng.randrange(len(extra) + 1), rng.choice(cand))
+    return extra
+
+
+def _split_numeric(name):
+    """all (prefix, start) with f"{prefix}{start}" == name"""
+    out = []
+    k = len(name)
+    while k > 0 and name[k - 1].isdigit():
+        k -= 1
+        if name[k] != "0" or k == len(name) - 1:
+            out.append((name[:k], int(name[k:])))
+    return out
+
+
+def colliding_lv(rng, g):
+    """G16-3: a (prefix, start) for to_latent_variable_dag whose generated names run into node names of g: the prefix is the
+    head of a node name that ends in digits (`A0` + 7 for A07, `X1` + 0 / `X` + 10 for X10, `u_` + 1), the start at or
+    shortly before that number (also negative: `A0-1`, `A00`); or the empty prefix"""
+    nodes = G.all_nodes(g)
+    cands = [ps for n in nodes for ps in _split_numeric(n)]
+    if not cands or rng.random() < 0.08:
+        return {"prefix": "", "start": rng.choice([0, 1, -1])}
+    prefix, k = rng.choice(cands)
+    return {"prefix": prefix, "start": k - rng.choice([0, 0, 1, 2, 3])}
+
+
+def _base(name):
+    while name.endswith(SUF):
+        name = name[:-len(SUF)]
+    return name
+
+
+def _rename(name, ren):
+    k = 0
+    while name.endswith(SUF):
+        name, k = name[:-len(SUF)], k + 1
+    return ren.get(name, name) + SUF * k
+
+
+def mixed_names(rng, case):
+    """the case over names of mixed length / case / suffix style (gen_graph.MIXED_NAMES) instead of A00..A15: a random
+    injection (the model ranks the names of each case by Python's string order, so nothing has to be order preserving).
+    `u_i` and `..._prime` names keep their meaning (the suffix is re-attached to the new base name)."""
+    names, _ = _case_names(case)
+    bases = sorted({_base(n) for n in names if not n.startswith("u_")})
+    pool = [x for x in G.MIXED_NAMES if x not in names]
+    if len(bases) > len(pool):
+        return case
+    ren = dict(zip(bases, rng.sample(pool, len(bases))))
+    f = lambda n: _rename(n, ren)  # noqa: E731
+    c = dict(case)
+    if "g" in c:
+        g = c["g"]
+        c["g"] = {"nodes": [f(v) for v in g["nodes"]], "di": [[f(a), f(b)] for a, b in g["di"]], "bi": [[f(a), f(b)] for a, b in g["bi"]]}
+    if "d" in c:
+        d = c["d"]
+        c["d"] = {"nodes": [f(v) for v in d["nodes"]], "edges": [[f(a), f(b)] for a, b in d["edges"]],
+                  "latent": [f(v) for v in d["latent"]], "untagged": [f(v) for v in d.get("untagged", [])]}
+    for k in ("cause", "effect"):
+        if k in c:
+            c[k] = f(c[k])
+    if "extra" in c:
+        c["extra"] = [f(v) for v in c["extra"]]
+    c["names"] = "mixed"
+    return c
+
+
 def _corpus_files():
     """witnesses kept under corpus/C16/*.json (replay files of past violations: key "case")"""
     out = []
@@ -364,6 +452,11 @@ def _corpus_files():
 
 
 TAG_FORMS = ("omitted", "none", "explicit_default", "custom")
+# the VALUE written under the tag of each node (the code tests truthiness: simplify_latent.iter_latents `if ...[tag]`,
+# from_latent_variable_dag `if not data[tag]`): Python bools; the ints 1 / 0 (what nx.set_node_attributes(g, 0, tag) followed by
+# g.nodes[u][tag] = 1 gives); numpy bools (a tag column that came out of an array / data frame); True / None (only the latents
+# marked, the others explicitly None); a mixture of them
+TAG_VALUES = ("bool", "bool", "int", "numpy_bool", "none_observed", "mixed")
 CUSTOM_TAG = "is_latent"
 LV_ARGS = ("omitted", "omitted", "none", "defaults_explicit", "custom_prefix", "custom_start", "custom_tag", "custom_all")
 LATENTS_FORMS = F.CONTAINERS + (F.SINGLE, F.SINGLE)
@@ -374,14 +467,14 @@ def _slots(case):
     if op == "roundtrip":
         return {"ctor": F.CTORS_SAME_ORDER, "lv_args": LV_ARGS, "from_tag": ("omitted", "none", "positional", "keyword")}
     if op == "simplify":
-        return {"tag": TAG_FORMS}
+        return {"tag": TAG_FORMS, "tag_values": TAG_VALUES}
     if op == "from_lv":
-        return {"tag": TAG_FORMS, "call": ("positional", "keyword")}
+        return {"tag": TAG_FORMS, "call": ("positional", "keyword"), "tag_values": TAG_VALUES}
     if op == "evans":
         return {"ctor": F.CTORS, "tag": TAG_FORMS, "call": ("positional", "keyword"),
                 "latents": LATENTS_FORMS if case.get("extra") else ("omitted", "none", "empty_set", "empty_tuple")}
     if op == "design":
-        return {"tag": TAG_FORMS, "latents": F.REITERABLE, "observed": F.REITERABLE}
+        return {"tag": TAG_FORMS, "latents": F.REITERABLE, "observed": F.REITERABLE, "tag_values": TAG_VALUES}
     return {}
 
 
@@ -397,17 +490,32 @@ def _tag_of(fm, key="tag"):
     return "hidden", {"omitted": {}, "none": {"tag": None}, "explicit_default": {"tag": "hidden"}}[t]
 
 
-def _lv_kwargs(fm):
-    """keyword arguments of to_latent_variable_dag for the recorded form, and (prefix, start, tag) they mean"""
+def _lv_kwargs(fm, case=None):
+    """keyword arguments of to_latent_variable_dag for the recorded form, and (prefix, start, tag) they mean.
+    A case of the prefix stream carries its own `lv = {"prefix", "start"}` (chosen so that the generated names hit node
+    names); the form then only decides about the tag."""
     a = fm.get("lv_args", "omitted")
     kw = {"omitted": {}, "none": {"prefix": None, "tag": None}, "defaults_explicit": {"prefix": "u_", "start": 0, "tag": "hidden"},
           "custom_prefix": {"prefix": "lat"}, "custom_start": {"start": 3}, "custom_tag": {"tag": CUSTOM_TAG},
           "custom_all": {"prefix": "lat", "start": 1, "tag": CUSTOM_TAG}}[a]
-    return kw, (kw.get("prefix") or "u_", kw.get("start", 0), kw.get("tag") or "hidden")
+    if case is not None and case.get("lv"):
+        kw = {k: v for k, v in kw.items() if k == "tag"}
+        kw.update({k: case["lv"][k] for k in ("prefix", "start") if k in case["lv"]})
+    prefix = kw.get("prefix")
+    return kw, ("u_" if prefix is None else prefix, kw.get("start", 0), kw.get("tag") or "hidden")
+
+
+def _assign(c):
+    """derive the forms of a case; forms a corpus witness was recorded with (and that are still legal) are kept"""
+    rec = dict(c.get("forms") or {})
+    sl = _slots(c)
+    F.assign(c, sl)
+    c["forms"].update({k: v for k, v in rec.items() if k in sl and v in sl[k]})
+    return c
 
 
 def cases(rng: random.Random, tier: str):
-    return [F.assign(c, _slots(c)) for c in _cases(rng, tier)]
+    return [_assign(c) for c in _cases(rng, tier)]
 
 
 def _cases(rng: random.Random, tier: str):
@@ -425,7 +533,7 @@ def _cases(rng: random.Random, tier: str):
         g = rand_admg(rng, nmax=7, collide=0.03)
         nodes = G.all_nodes(g)
         extra = [v for v in nodes if rng.random() < rng.choice([0.0, 0.0, 0.3, 0.6])]
-        out.append({"op": "evans", "g": g, "extra": extra})
+        out.append({"op": "evans", "g": g, "extra": _add_foreign(rng, g, extra)})
     for _ in range(120 * k):
         d = rand_dag(rng) if rng.random() < 0.6 else structured_dag(rng)
         d.pop("kind", None)
@@ -485,7 +593,7 @@ def _cases(rng: random.Random, tier: str):
                 out.append({"op": "roundtrip", "g": g})
             else:
                 nodes = G.all_nodes(g)
-                out.append({"op": "evans", "g": g, "extra": [v for v in nodes if rng.random() < 0.3]})
+                out.append({"op": "evans", "g": g, "extra": _add_foreign(rng, g, [v for v in nodes if rng.random() < 0.3])})
     for _ in range(110 * k):  # rule 1 on chains headed by a latent with a parent, partly latent children, taken names
         out.append({"op": "simplify", "d": hard_dag(rng)})
     for _ in range(50 * k):   # observed nodes called u_0, u_1, … next to several bidirected edges
@@ -494,7 +602,34 @@ def _cases(rng: random.Random, tier: str):
             out.append({"op": "roundtrip", "g": g})
         else:
             obs = [v for v in G.all_nodes(g)]
-            out.append({"op": "evans", "g": g, "extra": [v for v in obs if rng.random() < rng.choice([0.0, 0.3])]})
+            out.append({"op": "evans", "g": g, "extra": _add_foreign(rng, g, [v for v in obs if rng.random() < rng.choice([0.0, 0.3])])})
+    for _ in range(60 * k):   # G16-3: prefix / start of to_latent_variable_dag chosen to run into node names
+        g = rand_admg(rng, nmax=7, collide=0.1) if rng.random() < 0.7 else hard_admg(rng)
+        if not g["bi"] and G.all_nodes(g) and rng.random() < 0.8:
+            vs = G.all_nodes(g)
+            g["bi"] = [rng.sample(vs, 2)] if len(vs) >= 2 else []
+        out.append({"op": "roundtrip", "g": g, "lv": colliding_lv(rng, g)})
+    mixed = []
+    for _ in range(150 * k):  # names of mixed length / case: a case of one of the streams above, renamed
+        r = rng.random()
+        if r < 0.25:
+            c = {"op": "roundtrip", "g": rand_admg(rng, collide=0.05) if rng.random() < 0.7 else hard_admg(rng)}
+        elif r < 0.7:
+            d = rng.choice([rand_dag, structured_dag, hard_dag, hard_dag])(rng)
+            d.pop("kind", None)
+            c = {"op": "simplify", "d": d}
+        elif r < 0.9:
+            g = rand_admg(rng, nmax=7, collide=0.05) if rng.random() < 0.7 else hard_admg(rng)
+            c = {"op": "evans", "g": g, "extra": _add_foreign(rng, g, [v for v in G.all_nodes(g) if rng.random() < rng.choice([0.0, 0.3, 0.6])])}
+        else:
+            d = rand_dag(rng) if rng.random() < 0.6 else structured_dag(rng)
+            d.pop("kind", None)
+            c = {"op": "from_lv", "d": d}
+        c = mixed_names(rng, c)
+        if c["op"] == "roundtrip" and rng.random() < 0.4:
+            c["lv"] = colliding_lv(rng, c["g"])
+        mixed.append(c)
+    out += mixed
     # small-scope exhaustive slice: every DAG on n nodes (edges i -> j for i < j) x every latent subset,
     # names assigned by one random permutation per graph (so name order vs topological order varies)
     nmax_ex = 3 if tier == "quick" else 5
@@ -537,7 +672,7 @@ def _fresh_names(case):
     if case["op"] != "roundtrip":
         names, m = _case_names(case)
         return [f"u_{i}" for i in range(m + len(names) + 1)]
-    _, (prefix, start, _tag) = _lv_kwargs(_forms(case))
+    _, (prefix, start, _tag) = _lv_kwargs(_forms(case), case)
     g = case["g"]
     return [f"{prefix}{start + i}" for i in range(len(g["bi"]) + len(G.all_nodes(g)) + 1)]
 
@@ -575,16 +710,33 @@ def _V(n):
     return Variable(n)
 
 
-def build_dag(d, tag="hidden"):
+def _tag_value(is_latent, style, k=0):
+    """the value written under the tag of a node (truthy iff latent)"""
+    if style == "mixed":
+        style = ("bool", "int", "numpy_bool", "none_observed")[k % 4]
+    if style == "int":
+        return 1 if is_latent else 0
+    if style == "numpy_bool":
+        try:
+            import numpy
+            return numpy.bool_(is_latent)
+        except ImportError:
+            return bool(is_latent)
+    if style == "none_observed":
+        return True if is_latent else None
+    return bool(is_latent)
+
+
+def build_dag(d, tag="hidden", values="bool"):
     import networkx as nx
     g = nx.DiGraph()
     lat = set(d["latent"])
     unt = set(d.get("untagged", []))
-    for n in d["nodes"]:
+    for k, n in enumerate(d["nodes"]):
         if n in unt:
             g.add_node(_V(n))
         else:
-            g.add_node(_V(n), **{tag: n in lat})
+            g.add_node(_V(n), **{tag: _tag_value(n in lat, values, k + len(n))})
     for u, v in d["edges"]:
         g.add_edge(_V(u), _V(v))
     return g
@@ -605,7 +757,7 @@ def build_mixed(g, ctor="from_edges", seed=0):
 def canon_lv_nx(dag, tag="hidden"):
     nodes = [n.name for n in dag.nodes()]
     edges = [[u.name, v.name] for u, v in dag.edges()]
-    lat = [n.name for n, data in dag.nodes(data=True) if data.get(tag) is True]
+    lat = [n.name for n, data in dag.nodes(data=True) if data.get(tag)]      # by truthiness, as the code reads it
     unt = [n.name for n, data in dag.nodes(data=True) if tag not in data]
     return canon_lv(nodes, edges, lat, unt)
 
@@ -715,7 +867,7 @@ def _run_simplify(case):
     d = case["d"]
     rng = random.Random(case.get("sub", 0))
     tag, tkw = _tag_of(_forms(case))
-    dag = build_dag(d, tag)
+    dag = build_dag(d, tag, _forms(case).get("tag_values", "bool"))
     in_nodes = list(d["nodes"])
     in_edges = [tuple(e) for e in d["edges"]]
     in_lat = list(d["latent"])
@@ -763,7 +915,7 @@ def _run_roundtrip(case):
         graph = build_mixed(g, fm["ctor"], case.get("sub", 0))
     except Exception as e:  # noqa: BLE001
         return ["err"], f"constructor {fm['ctor']}: {type(e).__name__} {str(e)[:150]}", {}
-    lkw, (_prefix, _start, tag) = _lv_kwargs(fm)
+    lkw, (_prefix, _start, tag) = _lv_kwargs(fm, case)
     ft = fm["from_tag"]
     try:
         lv = graph.to_latent_variable_dag(**lkw)
@@ -841,7 +993,7 @@ def _run_from_lv(case):
     d = case["d"]
     fm = _forms(case)
     tag, tkw = _tag_of(fm)
-    dag = build_dag(d, tag)
+    dag = build_dag(d, tag, fm.get("tag_values", "bool"))
     try:
         if fm["call"] == "keyword":
             back = NxMixedGraph.from_latent_variable_dag(graph=dag, **tkw)
@@ -868,7 +1020,7 @@ def _run_design(case):
     d = case["d"]
     fm = _forms(case)
     tag, tkw = _tag_of(fm)
-    dag = build_dag(d, tag)
+    dag = build_dag(d, tag, fm.get("tag_values", "bool"))
     lat = [x for x in d["latent"]]
     obs_l = [v for v in d["nodes"] if v not in lat]
     try:
@@ -890,8 +1042,30 @@ def run_python(case):
     out, fail, info = {"simplify": _run_simplify, "roundtrip": _run_roundtrip, "evans": _run_evans,
                        "from_lv": _run_from_lv, "design": _run_design}[op](case)
     d = case.get("d")
-    tags = {"op": op, "outcome": out[0], "collision": collides(case)}
+    tags = {"op": op, "outcome": out[0], "collision": collides(case), "names": case.get("names") or "plain"}
     fm = dict(_forms(case))
+    if op == "roundtrip":
+        # does the skip-taken-names loop of _latent_dag have to skip for the prefix / start of THIS call?
+        g = case["g"]
+        have = set(G.all_nodes(g))
+        nb = len({frozenset(e) for e in g["bi"]})
+        taken, used = 0, 0
+        for name in _fresh_names(case):
+            if used >= nb:
+                break
+            if name in have:
+                taken += 1
+            else:
+                used += 1
+        _, (prefix, start, _t) = _lv_kwargs(fm, case)
+        tags["prefix_kind"] = "default" if prefix == "u_" else "empty" if prefix == "" else "custom"
+        tags["prefix_collides"] = ("no" if not taken else "default_prefix" if prefix == "u_" else "custom_prefix")
+        tags["start_negative"] = start < 0
+        tags["fresh_names_skipped"] = min(taken, 3)
+    if op == "evans":
+        ex = case.get("extra", [])
+        have = set(G.all_nodes(case["g"]))
+        tags["extra_foreign"] = ("none" if set(ex) <= have else "only_foreign" if not set(ex) & have else "mixed_with_members")
     if op == "evans" and case.get("extra"):
         fm["latents"] = F.effective(case["extra"], fm["latents"])
     tags.update(F.tags(fm))
@@ -1008,14 +1182,15 @@ def shrink(case):
             live = set(G.all_nodes(g))
             c = dict(case, g=g)
             if "extra" in c:
-                c["extra"] = [v for v in c["extra"] if v in live]
+                was = set(G.all_nodes(case["g"]))
+                c["extra"] = [v for v in c["extra"] if v in live or v not in was]
             yield c
         for k in range(len(case.get("extra", []))):
             yield dict(case, extra=case["extra"][:k] + case["extra"][k + 1:])
 
 
 def finding_key(case, res):
-    c = {k: case[k] for k in ("op", "g", "d", "extra", "cause", "effect") if k in case}
+    c = {k: case[k] for k in ("op", "g", "d", "extra", "cause", "effect", "lv") if k in case}
     return json.dumps(c, sort_keys=True)
 
 
